@@ -865,7 +865,11 @@ class _GenerateRenderMethod:
                         parsetree.InheritTag,
                         parsetree.PageTag,
                     ),
-                ) or (isinstance(c, parsetree.Code) and c.ismodule)
+                ) or (
+                    (isinstance(c, parsetree.Code) and c.ismodule)
+                    # an empty <%text></%text>
+                    or (isinstance(c, parsetree.TextTag) and not c.nodes)
+                )
 
             def _search_for_control_line():
                 for c in children:
